@@ -63,8 +63,8 @@ def build(spec) -> Built:
 
 
 VCLS_PLAIN = ["Vertex"]
-VCLS_MIX = ["Vertex", "Vertex", "VSub", "VSubSub", "FalsyVertex", "EmptyVertex", "Universe"]
-ECLS_DU = ["DirectedEdge", "UnDirectedEdge", "DSub", "DSubSub", "USub"]
+VCLS_MIX = ["Vertex", "Vertex", "VSub", "VSubSub", "FalsyVertex", "EmptyVertex", "Universe", "VBoth", "VFancy"]
+ECLS_DU = ["DirectedEdge", "UnDirectedEdge", "DSub", "DSubSub", "USub", "MixEdge"]
 ECLS_ALL = ECLS_DU + ["OtherLink", "OtherLink2", "TwoEndedLink"]
 
 
@@ -173,6 +173,25 @@ def family_specs(rng: random.Random, sizes=(4, 7, 12), ecls=ECLS_DU, vcls=VCLS_P
         # universe cuts the graph in the middle
         cut = [i for i in range(n) if i != n // 2]
         out.append({"verts": V, "edges": [E(i, i + 1) for i in range(n - 1)] + [E(0, n - 1)], "uni": cut})
+    return out
+
+
+def hub_specs(rng: random.Random, fanouts=(127, 128, 129, 200, 300), ecls=ECLS_DU):
+    """
+    High-degree hubs (degree thresholds 128/129, 256/257): a hub with `f` children created in a scrambled
+    order, every child pointing to a shared grandchild, some parallel edges, plus a second hub below.
+    """
+    out = []
+    for f in fanouts:
+        order = list(range(1, f + 1))
+        rng.shuffle(order)
+        edges = [[rng.choice(ecls), 0, c, c % 6] for c in order]
+        edges += [[rng.choice(ecls), 0, order[0], 1], [rng.choice(ecls), 0, order[-1], 2]]  # parallel edges
+        g = f + 1
+        edges += [[rng.choice(ecls), c, g, c % 6] for c in order[: f // 2]]
+        edges += [[rng.choice(ecls), g, c, 0] for c in order[f // 2:]]
+        out.append({"verts": ["Vertex"] * (f + 2), "edges": edges, "uni": None})
+        out.append({"verts": ["Vertex"] * (f + 2), "edges": edges, "uni": [i for i in range(f + 2) if i % 5 != 3]})
     return out
 
 
